@@ -812,25 +812,40 @@ class Node:
                     except Exception:
                         return False
 
-                lo, hi = 8, 1200
-                if not ok(lo):
-                    continue
-                while hi - lo > 1:  # largest depth that does not overflow
-                    mid = (lo + hi) // 2
-                    if ok(mid):
-                        lo = mid
-                    else:
-                        hi = mid
-                self.stat("probe_deepest_query_served")
-                self.stat("deepest_query_terms", lo)
-                for n in sorted({lo, lo - 1, lo - 7, max(8, lo - 40)}):
-                    text = deep(n)
-                    refs = self.refs_for(text)
-                    self.resolved.append({"op": "serve", "q": text})
-                    rec = self.serve(text, refs, "deep", text)
-                    if rec:
-                        rec["out"] = "<unprintable>"  # too deep to round-trip
-                        self.served.append(rec)
+                box = {}
+
+                def probe():
+                    # on a thread of its own: how deep the process can go then does not depend
+                    # on how deep the caller of this run happens to be
+                    try:
+                        lo, hi = 8, 1200
+                        if not ok(lo):
+                            return
+                        while hi - lo > 1:  # largest depth that does not overflow
+                            mid = (lo + hi) // 2
+                            if ok(mid):
+                                lo = mid
+                            else:
+                                hi = mid
+                        self.stat("probe_deepest_query_served")
+                        for n in sorted({lo, lo - 1, lo - 7, max(8, lo - 40)}):
+                            text = deep(n)
+                            refs = self.refs_for(text)
+                            self.resolved.append({"op": "serve", "q": text})
+                            rec = self.serve(text, refs, "deep", text)
+                            if rec:
+                                rec["out"] = "<unprintable>"  # too deep to round-trip
+                                self.served.append(rec)
+                    except BaseException as e:
+                        box["exc"] = e
+
+                import threading
+
+                t = threading.Thread(target=probe, name="deep-probe")
+                t.start()
+                t.join()
+                if "exc" in box:
+                    raise box["exc"]
             elif k == "serve_bad":
                 inst = None
                 if self.case["config"].get("reuse_instance"):
